@@ -306,7 +306,7 @@ theorem Neutral.releaseAction (au : String) : Pres Neutral (releaseAction au) :=
 
 theorem Same.failedEvent (f : FUid) (sc : List Score) : Pres Same (failedEvent f sc) := by
   unfold CoreVM.failedEvent; same_auto
-macro_rules | `(tactic| same_leaf) => `(tactic| first | exact Same.failedEvent _ _ | exact Same.isReferenceActivated _ | exact Same.isChildActivated _)
+macro_rules | `(tactic| same_leaf) => `(tactic| first | exact Same.failedEvent _ _ | exact Same.isReferenceActivated _ | exact Same.deactivatesRef _ _ | exact Same.isChildActivated _)
 
 section fr
 variable {G : FUid → Prop}
